@@ -30,6 +30,15 @@ def check(ctx):
     # and then judged as such) is driven to the end and judged by the same specification
     from . import boxes
     cfgs += [c for c in boxes.ebox(ctx.tier, ctx.seed) if "calls" not in c]
+    # valid tuples given as numpy integers
+    from .record import mkcfg
+    for n in (1, 3, 6, 10, 15):
+        for c in (mkcfg("Multistage", max_n=n, ram=1, disk=2), mkcfg("Mixed", max_n=n, ram=3, st=1),
+                  mkcfg("Revolve", max_n=n, ram=2), mkcfg("Revolve", max_n=n, ram=4), mkcfg("DiskRevolve", max_n=n, ram=2),
+                  mkcfg("PeriodicDiskRevolve", max_n=n, ram=3), mkcfg("HRevolve", max_n=n, ram=2, disk=1),
+                  mkcfg("TwoLevel", N=n, passes=2, period=3, ram=1, st=0)):
+            c["npargs"] = 1
+            cfgs.append(c)
     traces = record.record_many(cfgs)
     verdicts = fw.validate(ctx, traces, module="TraceDomain")
     viols = []
